@@ -198,6 +198,7 @@ impl Connection {
             _ => false,
         }),                                                                                                            // [C12.open-sent] sending the open succeeds only from the three states that precede it, and leaves them: so it succeeds at most once
         r is Err ==> final(self).local_state == old(self).local_state,
+        final(writer).sent@ == old(writer).sent@ || final(writer).sent@ == old(writer).sent@.push(Frame { channel: 0, body: FrameBody::Open(old(self).local_open) }),   // [C12.open-frame] whatever the outcome, nothing but (at most one) local Open is written
         *final(self) == (Connection { local_state: final(self).local_state, ..*old(self) }),
 //@@ end
 
